@@ -270,6 +270,24 @@ def gen_program(rng, pygam_mod, n_rows=12, n_query=8, allow_constraints=True, al
             terms.append(mk_linear())
         else:
             terms.append(mk_factor())
+    # a feature declared categorical by one spline term is domain-checked for every query of the model: it must not be the
+    # feature (or by-variable) of any other term, whose grids and knots may reach beyond the categories seen in training
+    def _leaves_of(ts):
+        for t in ts:
+            for s_ in (t._terms if t.istensor else [t]):
+                yield t, s_
+    usage = {}
+    for t, s_ in _leaves_of(terms):
+        usage[int(s_.feature)] = usage.get(int(s_.feature), 0) + 1
+        if getattr(s_, 'by', None) is not None:
+            usage[int(s_.by)] = usage.get(int(s_.by), 0) + 2
+    for t in terms:
+        if t.istensor and t.by is not None:
+            usage[int(t.by)] = usage.get(int(t.by), 0) + 2
+    for t, s_ in _leaves_of(terms):
+        if s_._name == 'spline_term' and getattr(s_, 'dtype', 'numerical') == 'categorical' and usage.get(int(s_.feature), 0) > 1:
+            s_.dtype = 'numerical'
+            cat_spline_feats.discard(int(s_.feature))
     with_intercept = rng.random() < 0.7
     tl = TermList(*terms)
     if with_intercept:
